@@ -36,6 +36,8 @@ import (
 func init() { props["C02"] = runC02 }
 
 type c02Case struct {
+	// cpuMs overrides the CPU budget of the run (0 = the tier's default)
+	cpuMs  int
 	id     int
 	src    []byte
 	origin string // seed name / generator
